@@ -2,10 +2,15 @@ SPECIFICATION Spec
 CHECK_DEADLOCK FALSE
 POSTCONDITION TraceAccepted
 INVARIANT Axioms
+INVARIANT C01_QuietAtFix
+INVARIANT C01_QuietAfterQuiet
+INVARIANT C01_Bounded
 INVARIANT C02_WriteSafe
 INVARIANT C02_WriteSafeObserved
 INVARIANT C02_DeleteUidPrecond
 INVARIANT C02_BornOwned
+INVARIANT C03_ViewExact
+INVARIANT C03_NsDefault
 INVARIANT C04_AdoptOnlyIf
 INVARIANT C04_ReleaseShape
 INVARIANT C04_OthersKept
@@ -13,4 +18,37 @@ INVARIANT C04_OneController
 INVARIANT C04_DyingParentPassive
 INVARIANT C04_LabelGate
 INVARIANT C04_GeneratedLabel
+INVARIANT C06_Method
+INVARIANT C06_DeletingNoWrite
+INVARIANT C06_EqualNoWrite
+INVARIANT C06_UndesiredDeletedBackground
+INVARIANT C06_Complete
+INVARIANT C10_FinBeforeChild
+INVARIANT C10_NoFinOnDying
+INVARIANT C10_HookChoice
+INVARIANT C10_RemoveOnlyFinalized
+INVARIANT C10_LeftoverRemoved
+INVARIANT C10_DyingNoTouch
+INVARIANT C10_StillReconciled
+INVARIANT C11_StatusBody
+INVARIANT C11_ViaSubresource
+INVARIANT C11_SkipEqual
+INVARIANT C11_RetryFresh
+INVARIANT C11_UidGuard
+INVARIANT C11_Written
+INVARIANT C12_NoPanic
+INVARIANT C12_ErrorRequeues
+INVARIANT C12_429After
+INVARIANT C12_OthersProceed
+INVARIANT C12_Recovers
+INVARIANT C13_NoPanic
+INVARIANT C13_RejectedNoWrites
+INVARIANT C13_HookErrNoWrites
+INVARIANT C16_OnlyNamedKeys
+INVARIANT C16_StatusRule
+INVARIANT C16_FinalizerOnly
+INVARIANT C16_SpecUntouched
+INVARIANT C16_NoOpNoRequest
+INVARIANT C16_Selected
 INVARIANT C17_CacheFrozen
+INVARIANT C17_HookSeesDelivered
